@@ -155,3 +155,11 @@ Theorem C04_thread_indices_in_range {T} `{Num T} : forall (d_min d_maj pitch len
   let ns := mesh_steps d_min d_maj pitch length segments in (1 <= ns)%Z ->
   Forall (fun i => (0 <= i < 4 * ns)%Z) (snd (thread_mesh d_min d_maj pitch length segments li lo left)).
 Proof. exact (@thread_mesh_indices_in_range T H). Qed.
+
+(* the thread mesh in its exact form: at least two steps, both hands, every lead-in / lead-out *)
+From SCAD Require Import Parts.Thread_exact_proofs.
+Theorem C04_thread_mesh_exact {T} `{Num T} : forall (d_min d_maj pitch length : T) (segments : Z) (li lo : T) (left : bool),
+  (2 <= mesh_steps d_min d_maj pitch length segments)%Z ->
+  forall u v, (mcnt u v (triples (snd (thread_mesh d_min d_maj pitch length segments li lo left)) 0) <= 1)%nat /\
+              mcnt u v (triples (snd (thread_mesh d_min d_maj pitch length segments li lo left)) 0) = mcnt v u (triples (snd (thread_mesh d_min d_maj pitch length segments li lo left)) 0).
+Proof. exact (@thread_mesh_exact T H). Qed.
